@@ -8,6 +8,8 @@ package main
 // and with the chain of call sites, so that guards can be collected along the way.
 
 import (
+	"go/token"
+
 	"golang.org/x/tools/go/ssa"
 )
 
@@ -25,6 +27,54 @@ func (d deepInstr) guards() []Atom {
 		out = append(out, guardsAt(cs.Block())...)
 	}
 	return append(out, guardsAt(d.in.Block())...)
+}
+
+// rawGuards: the branch conditions known at the instruction, as values: those at every call site of the
+// chain, plus those inside the helper.  A helper's test of one of its own boolean parameters
+// (`if release {`) is replaced by the argument the caller passed (`b[i] == 'm'`), so a rule sees the
+// condition it would see if the helper's body stood in the caller.
+func (d deepInstr) rawGuards() []rawGuard {
+	var out []rawGuard
+	for _, cs := range d.chain {
+		out = append(out, rawGuardsAt(cs.Block())...)
+	}
+	inner := rawGuardsAt(d.in.Block())
+	if len(d.chain) == 0 {
+		return append(out, inner...)
+	}
+	call := callCommon(d.chain[len(d.chain)-1])
+	h := d.in.Parent()
+	for _, g := range inner {
+		cond, pos := g.Cond, g.Positive
+		for {
+			u, ok := cond.(*ssa.UnOp)
+			if !ok || u.Op != token.NOT {
+				break
+			}
+			cond, pos = u.X, !pos
+		}
+		if pa, ok := cond.(*ssa.Parameter); ok && call != nil && h != nil {
+			for i, q := range h.Params {
+				if q == pa && i < len(call.Args) {
+					out = append(out, expandCond(call.Args[i], pos, 0)...)
+				}
+			}
+			continue
+		}
+		out = append(out, g)
+	}
+	return out
+}
+
+// atoms: rawGuards as printable atoms.
+func (d deepInstr) atoms() []Atom {
+	var out []Atom
+	for _, g := range d.rawGuards() {
+		if at, ok := condAtom(g.Cond, g.Positive); ok {
+			out = append(out, at.canon())
+		}
+	}
+	return out
 }
 
 func deepInstrs(p *Prog, fn *ssa.Function, depth int, enter func(call ssa.Instruction, callee *ssa.Function) bool) []deepInstr {
